@@ -124,7 +124,16 @@ def worker_cases():
             for ans in (0, 1, 2):
                 out.append(Case("wh_%d_%d_%d" % (ct, st, ans), [["http_patch", ct, st, ans]]))
                 for hsts in (0, 1, 2):
-                    out.append(Case("ws_%d_%d_%d_%d" % (ct, st, ans, hsts), [["https_patch", ct, st, ans, hsts]]))
+                    # the listener's own HSTS default: none / enabled / disabled (a patch without `enabled` must be
+                    # refused with no trace whatever the listener already holds)
+                    for lh in (0, 1, 2):
+                        out.append(Case("ws_%d_%d_%d_%d_%d" % (ct, st, ans, hsts, lh), [["https_patch", ct, st, ans, hsts, lh]]))
+    # AddHttp(s)Frontend on the real proxy objects: a refused frontend must leave the hostname's tags alone
+    for tls in (0, 1):
+        for how in (0, 1, 2):
+            for t1 in (0, 1, 2):
+                for t2 in (0, 1, 2):
+                    out.append(Case("wt_%d_%d_%d_%d" % (tls, how, t1, t2), [["front_tags", tls, how, t1, t2]]))
     return out
 
 
@@ -133,7 +142,7 @@ def extra_stage(tier, rng, work):
     import os
     cases = worker_cases()
     outs, problems = vlib.run_harness("c07w", cases, os.path.join(work, "worker"), "release", shards=1)
-    viols, rejected, accepted = [], 0, 0
+    viols, rejected, accepted, fronts_refused, fronts_accepted = [], 0, 0, 0, 0
     for c in cases:
         o = outs.get(c.id)
         if o is None:
@@ -144,6 +153,13 @@ def extra_stage(tier, rng, work):
         if any(n.startswith("invalid-case") for n in o["notes"]):
             problems.append("c07w: " + "; ".join(o["notes"]))
         for ob in o["obs"]:
+            if c.ops[0][0] == "front_tags":
+                if len(ob) == 3:
+                    fronts_refused += ob[1] == "err"
+                    fronts_accepted += ob[1] == "ok"
+                    if ob[0] != "ok":
+                        problems.append("c07w: %s: the first frontend was not accepted" % c.id)
+                continue
             if ob and ob[0] == "err":
                 rejected += 1
             elif ob and ob[0] == "ok":
@@ -155,8 +171,11 @@ def extra_stage(tier, rng, work):
             viols.append((c, vc, vt))
     if rejected < 10 or accepted < 10:
         problems.append("c07w: only %d rejected / %d accepted listener patches exercised" % (rejected, accepted))
+    if fronts_refused < 10 or fronts_accepted < 5:
+        problems.append("c07w: only %d refused / %d accepted second frontends exercised" % (fronts_refused, fronts_accepted))
     return dict(failures=problems, viols=viols,
-                coverage=dict(worker_listener_patches=len(cases), worker_patches_rejected=rejected, worker_patches_accepted=accepted))
+                coverage=dict(worker_listener_patches=len(cases), worker_patches_rejected=rejected, worker_patches_accepted=accepted,
+                              worker_fronts_refused=fronts_refused, worker_fronts_accepted=fronts_accepted))
 
 
 def corpus_cases():
